@@ -234,6 +234,70 @@ def reader_wakes(chk, prog):
     chk.run('reader:frees-capacity-and-wakes', prog, harness, bounds={'pending': 2, 'request': 'one ack or one nack'}, setup=world.setup, max_paths=50000)
 
 
+def refresher_rearms(chk, prog):
+    """the goroutine that re-syncs the pending set after external acks re-arms its (single-use) notifier BEFORE it reads the
+    database, so an ack committing during that read is not lost (register-before-query, as for the puller in C10)"""
+    fn = MS + 'Go$6'
+
+    def harness(ex, ob):
+        db = reldb.sym_db(ex, prog, {'Topic': 1, 'Subscription': 1, 'Message': 1, 'Delivery': 1}, exists=True)
+        client = reldb.make_client(ex, db)
+        pid = db.t['Delivery'][0].v['id']
+        pend = MapObj()
+        pend.ents.append([pid, ex.new_ptr(ex.new_struct(A + 'pendingMessage', bytes=1, nextAttemptAt=0))])
+        ms = ex.new_ptr(ex.new_struct(A + 'MessageStreamer', Client=client, SubscriptionID=ex.new_ptr(db.t['Subscription'][0].v['id']), Logger=Opaque('logger')))
+        ctxv = new_context(ex)
+        woke = []
+        tryWake = PyFunc(lambda ex_, a: woke.append(1), 'tryWake')
+        waits = {'n': 0}
+
+        def reg(ex_, args, name):
+            ch = ex_.call_plain(name, args)
+            ex_.events.append(('reg', ch))
+            return ch
+
+        def cancel(ex_, args, name):
+            ex_.events.append(('cancel', args[1]))
+            return ex_.call_plain(name, args)
+
+        def select(ex_, states, blocking, t):
+            zero = tuple([ex_.zero(x) for x in ex_.prog.types[t]['elems'][2:]])
+            if not blocking:
+                return (-1, False) + zero
+            waits['n'] += 1
+            if waits['n'] > 1:
+                raise Stop('second wait reached')
+            regs = [e[1] for e in ex_.events if e[0] == 'reg']
+            for idx, (dr, ch, snd) in enumerate(states):
+                if isinstance(ch, Chan) and ch in regs:
+                    ch.closed = True
+                    ex_.events.append(('woken', ch))
+                    return (idx, False) + zero
+            raise Unsupported('refresher does not wait on a registered notifier')
+        ex.xp.select = select
+        ex.intrinsics = dict(ex.intrinsics)
+        ex.intrinsics[A + 'PublishAwaiter'] = reg
+        ex.intrinsics[A + 'CancelPublishAwaiter'] = cancel
+        try:
+            ex.call_value(Closure(fn, [ex.new_ptr(ms), ex.new_ptr(ctxv), ex.new_ptr(ex.zero('sync.Mutex')), ex.new_ptr(pend), ex.new_ptr(tryWake)]), [])
+        except Stop:
+            pass
+        ev = ex.events
+        woken = [k for k, e in enumerate(ev) if e[0] == 'woken']
+        reads = [k for k, e in enumerate(ev) if e[0] == 'stmt' and e[2] == 'SELECT' and k > (woken[0] if woken else -1)]
+        ob.verify(ex, 'refresher-reads-the-database-after-a-wake', bool(woken) and bool(reads))
+        if woken and reads:
+            live = set()
+            for k, e in enumerate(ev[:reads[0]]):
+                if e[0] == 'reg' and k > woken[0]:
+                    live.add(id(e[1]))
+                if e[0] == 'cancel' and isinstance(e[1], Chan):
+                    live.discard(id(e[1]))
+            ob.verify(ex, 'notifier-re-armed-before-the-database-read', len(live) >= 1,
+                      lambda m: {'events': [e[0] for e in ev]})
+    chk.run('refresher:re-arms-before-reading', prog, harness, bounds={'iterations': 1}, setup=world.setup, parallel=False)
+
+
 if __name__ == '__main__':
     chk = Check('C11')
     prog = load_program()
@@ -242,5 +306,6 @@ if __name__ == '__main__':
     budget_kernel(chk, prog)
     sender_step(chk, prog)
     reader_wakes(chk, prog)
+    refresher_rearms(chk, prog)
     chk.assumptions += ['the no-stall half is decided only as wake edges (reader frees capacity and wakes; external acks wake through C10); interleavings inside Go are not enumerated']
     chk.finish()
